@@ -43,12 +43,12 @@ def nontrivial(s):
     return any(c in s for c in "\r\n\0;,=\"\\") or any(ord(c) > 126 for c in s)
 
 
-PATHS = ["setitem", "append-new", "append-existing", "update-mapping", "update-pairs", "update-kwargs", "setdefault-new",
+PATHS = ["setitem-existing", "setitem", "append-new", "append-existing", "update-mapping", "update-pairs", "update-kwargs", "setdefault-new",
          "setdefault-existing"]
 
 
 def mutate(h, path, key, value):
-    if path == "setitem":
+    if path in ("setitem", "setitem-existing"):
         h[key] = value
     elif path == "append-new":
         h.append(key, value)
@@ -75,7 +75,7 @@ def check_mutation(ctx, path, key, value, where):
     from baize.datastructures import MutableHeaders
     h = MutableHeaders()
     h["x-pre"] = "0"
-    if path == "append-existing":
+    if path in ("append-existing", "setitem-existing"):
         h[key if not is_bad(key) else "x-e"] = "v0"
         if is_bad(key):
             pass
